@@ -12,7 +12,7 @@ using namespace Qentem;
 template <typename C>
 static std::vector<std::basic_string<C>> all_strings(int maxlen) {
     std::vector<std::basic_string<C>> v;
-    const C                            units[3] = {C('a'), C('b'), C(0x01)};
+    const C                            units[4] = {C('a'), C('b'), C(0x01), C(0xE9)}; // 0xE9: negative as a plain char
     v.push_back({});
     size_t start = 0;
     for (int l = 1; l <= maxlen; l++) {
@@ -30,7 +30,7 @@ template <typename C>
 static std::string sshow(const std::basic_string<C> &s) {
     std::string o = "\"";
     for (C c : s) {
-        o += (c == 1) ? std::string("\\1") : std::string(1, char(c));
+        o += (c == 1) ? std::string("\\1") : ((unsigned)c == 0xE9 || (int)c == -23 ? std::string("\\xE9") : std::string(1, char(c)));
     }
     return o + "\"";
 }
@@ -200,6 +200,13 @@ static void value_pairs(int64_t chunk, int64_t nch, vx::Ctx &ctx, bool with_poin
             char              d[160];
             if ((int)lt + (int)gt + (int)eq != 1) {
                 snprintf(d, sizeof d, "not exactly one of <, ==, > holds: < %d == %d > %d", lt, eq, gt);
+                ctx.fail(key, d);
+                continue;
+            }
+            // one relation: a < b exactly when b > a, and == is symmetric (whichever operand is the pointer-to-value)
+            if (lt != (b > a) || gt != (b < a) || eq != (b == a)) {
+                snprintf(d, sizeof d, "the operators disagree when the operands are swapped: a<b %d b>a %d | a>b %d b<a %d | a==b %d b==a %d", lt, (int)(b > a), gt,
+                         (int)(b < a), eq, (int)(b == a));
                 ctx.fail(key, d);
                 continue;
             }
@@ -375,6 +382,39 @@ static void sort_cases(int64_t chunk, int64_t nch, vx::Ctx &ctx) {
                                 break;
                             }
                         }
+                        // the same set reached through a pointer-to-value member, and a pointer as the root
+                        {
+                            V holder;
+                            holder["p"].SetPointerToValue(&root);
+                            const char *tq = asc ? "<loop set=\"p\" value=\"v\" sort=\"ascend\">{var:v},</loop>" : "<loop set=\"p\" value=\"v\" sort=\"descend\">{var:v},</loop>";
+                            for (int via_root = 0; via_root < 2; via_root++) {
+                                V proot;
+                                proot.SetPointerToValue(&root);
+                                StringStream<char> sp;
+                                if (via_root) {
+                                    Template::Render(tp, SizeT(strlen(tp)), proot, sp);
+                                } else {
+                                    Template::Render(tq, SizeT(strlen(tq)), holder, sp);
+                                }
+                                std::vector<std::string> g3;
+                                cur.clear();
+                                for (SizeT i = 0; i < sp.Length(); i++) {
+                                    if (sp.First()[i] == ',') {
+                                        g3.push_back(cur);
+                                        cur.clear();
+                                    } else {
+                                        cur += sp.First()[i];
+                                    }
+                                }
+                                ordered(g3, m, via_root ? "<loop sort> over a pointer-to-value root" : "<loop sort> over a set behind a pointer-to-value");
+                            }
+                            for (SizeT i = 0; i < root.Size(); i++) {
+                                if (m[i] != root.GetValue(i)->StringStorage()) {
+                                    ctx.fail("<loop sort> through a pointer " + desc, "the caller's array was reordered");
+                                    break;
+                                }
+                            }
+                        }
                     }
                 }
                 // keyed: distinct keys only; with and without a removed member; lookups afterwards
@@ -435,7 +475,7 @@ int main(int argc, char **argv) {
     return vx::standard_main(argc, argv, [](const vx::Args &) {
         vx::Plan plan;
         plan.engine = "langx";
-        plan.rule = "all ordered pairs and triples of the 121 strings of length <=4 over {a,b,0x01} through String, StringView, the const C* "
+        plan.rule = "all ordered pairs and triples of the 341 strings of length <=4 over {a,b,0x01,0xE9} through String, StringView, the const C* "
                     "overloads and StringUtils::IsLess/IsGreater in char, char16_t, char32_t (reference: lexicographic by unit, prefix first); "
                     "all pairs and triples of 36 values of every kind incl. pointer-to-value (trichotomy, <=/>= unions, transitivity, magnitude); "
                     "every array of length <=5 over 4 values (duplicates, prefix chain) through Array<int>, Array<String>, Value array, "
